@@ -329,7 +329,7 @@ def replay(wit):
 LEVEL = 'exploration'
 TECHNIQUE = 'runtime contracts on the real str_to_lines/escape_str_for_quote plus tokenize/ast oracle on the printed literal, exhaustive short strings x contexts x widths'
 LEVEL_TEXT = ('All strings up to length 3 (thorough 5) over an 8-character adversarial alphabet, as str and bytes, derived long strings and random unicode/binary '
-              'are printed in six placement contexts at widths from 1 up; the literal found at the position must equal the value and every piece is inspected. '
+              '(incl. strings of 255 .. 65536 characters at every length residue modulo the line capacity, and stacks of combining marks / joiners / bidi marks) are printed in six placement contexts at widths from 1 up; the literal found at the position must equal the value and every piece is inspected. '
               'Post-conditions run on every real call of the splitter/escaper, with a line-event budget as bounded restatement of termination.')
 LEVEL_NOTE = 'Trusts tokenize/ast; widths are exhaustive 1..24 only in the thorough tier, sampled otherwise; long strings are sampled.'
 ANCHORS = ['prettyprinter.pretty_str', 'prettyprinter.str_to_lines', 'prettyprinter.escape_str_for_quote', 'prettyprinter.determine_quote_strategy', 'prettyprinter.pretty_single_line_str', 'prettyprinter.highlight_escapes']
